@@ -6,5 +6,6 @@ import SJ.Props.C03
 #print axioms SJ.Props.C03.c03_hints
 #print axioms SJ.Props.C03.c03_value
 #print axioms SJ.Props.C03.c03_display_partial
-#print axioms SJ.Props.C03.c03_utf8_partial
+#print axioms SJ.Props.C03.c03_utf8_fragments
 #print axioms SJ.Props.C03.c03_recognise_sound
+#print axioms SJ.Props.C03.c03_utf8
